@@ -15,9 +15,9 @@ RULE = ("(a) for every connected graph in the box, 3 vertex labelings and every 
         "automated_equation is evaluated on symbolic phi and one symbol per vertex and compared coefficient by "
         "coefficient with the polynomial obtained by enumerating all 2^|E| occupation states; (b) explicit-state "
         "BFS over call histories on ONE shared evaluator (3 distinctly named motifs on the same vertex set x 2 focal "
-        "vertices x 2 phi x 2 u-assignments = 24 letters; state = contents of both caches), every answer compared "
+        "vertices x 2 phi x 3 u-assignments = 36 letters; state = contents of both caches), every answer compared "
         "with a fresh evaluator and with the oracle; non-trivial = graph with >= 3 edges / cache state with >= 2 keys")
-BOUNDS = {"quick": "all 30 connected atlas graphs on 2..5 vertices, cycles C6..C8; histories: BFS to fixpoint of "
+BOUNDS = {"quick": "all 30 connected atlas graphs on 2..5 vertices and the 6-vertex ones with <= 7 edges, cycles C6..C8; one evaluator shared by all motifs (2 orders); histories: BFS to fixpoint of "
                    "the cache-state space (cap depth 8; 64 states reached at depth 6)",
           "thorough": "+ all connected 6-vertex atlas graphs with <= 11 edges, K6, cycles to C10"}
 ASSUMPTIONS = ["motifs on a shared evaluator are distinctly named (the property's premise)",
@@ -30,6 +30,8 @@ def graphs(tier, seed):
         out.append((n, edges))
     for n in (6, 7, 8):
         out.append((n, [(i, (i + 1) % n) if i < (i + 1) % n else ((i + 1) % n, i) for i in range(n)]))
+    if tier == "quick":
+        out += enumr.atlas_connected(6, 6, max_edges=7)
     if tier == "thorough":
         out += enumr.atlas_connected(6, 6, max_edges=11)
         out.append((6, enumr.pairs(6)))
@@ -44,6 +46,31 @@ def instances(tier, seed):
         for lab in enumr.relabelings(n, seed, kinds=kinds):
             yield {"kind": "identity", "n": n, "edges": edges, "labels": lab}
     yield {"kind": "history"}
+    for order in ("forward", "reverse"):
+        yield {"kind": "shared", "order": order}
+
+
+NUMERIC_POINTS = [
+    (Fraction(1, 3), [Fraction(1, 2), Fraction(1, 3), Fraction(2, 5), Fraction(7, 8), Fraction(1, 5), Fraction(9, 10),
+                      Fraction(3, 7), Fraction(5, 6), Fraction(1, 9), Fraction(4, 5)]),
+    (Fraction(3, 4), [Fraction(9, 10), Fraction(1, 7), Fraction(1, 2), Fraction(2, 3), Fraction(3, 8), Fraction(1, 4),
+                      Fraction(5, 7), Fraction(1, 6), Fraction(7, 9), Fraction(2, 7)]),
+    (Fraction(1, 10), [Fraction(2, 3), Fraction(3, 5), Fraction(1, 8), Fraction(1, 3), Fraction(6, 7), Fraction(1, 2),
+                       Fraction(2, 9), Fraction(4, 7), Fraction(3, 4), Fraction(1, 5)]),
+]
+
+
+def numeric_check(ae_factory, name, verts, edges, root, want_poly):
+    """Fallback when the code does not run on symbolic arguments: floats at heterogeneous rational points."""
+    for phi, us in NUMERIC_POINTS:
+        u = {v: us[i % len(us)] for i, v in enumerate(verts)}
+        env = {"p": phi}
+        env.update({f"u{v}": u[v] for v in verts})
+        want = float(want_poly.subs(env))
+        got = evaluate(ae_factory(), name, verts, edges, root, float(phi), {v: float(x) for v, x in u.items()})
+        if abs(float(got) - want) > 1e-11:
+            return f"at phi={phi}, u={({v: str(x) for v, x in u.items()})}: {got} vs exact {want}"
+    return None
 
 
 def evaluate(ae, name, verts, edges, root, p, u):
@@ -70,8 +97,18 @@ def run_identity(res, inst):
         try:
             got = evaluate(AutomatedEquation(), f"m{root}", verts, edges, root, p, u)
         except Exception as e:
-            res.violation("C15:raises", f"vertices={verts} edges={edges} focal={root}: {e!r}",
-                          {k: inst[k] for k in ("n", "edges", "labels")}, root=root)
+            # the code may legitimately use an operation the symbolic arguments do not support:
+            # decide numerically at heterogeneous rational points instead (weaker, still sound)
+            res.count("evaluations_decided_numerically_because_symbolic_arguments_failed")
+            try:
+                bad = numeric_check(AutomatedEquation, f"m{root}", verts, edges, root, want)
+            except Exception as e2:
+                res.violation("C15:raises", f"vertices={verts} edges={edges} focal={root}: {e2!r} (symbolic: {e!r})",
+                              {k: inst[k] for k in ("n", "edges", "labels")}, root=root)
+                continue
+            if bad:
+                res.violation("C15:value-differs", f"vertices={verts} edges={edges} focal={root}: {bad}",
+                              {k: inst[k] for k in ("n", "edges", "labels")}, root=root)
             continue
         if not isinstance(got, Poly) or got != want:
             res.violation("C15:polynomial-differs",
@@ -93,8 +130,12 @@ MOTIFS = {
 VERTS = [0, 1, 2, 3]
 PHIS = [Fraction(1, 3), Fraction(3, 4)]
 US = [{0: Fraction(1, 2), 1: Fraction(1, 3), 2: Fraction(2, 5), 3: Fraction(7, 8)},
-      {0: Fraction(1, 5), 1: Fraction(9, 10), 2: Fraction(1, 2), 3: Fraction(1, 7)}]
-ALPHABET = [(m, f, pi, ui) for m in MOTIFS for f in (0, 2) for pi in range(2) for ui in range(2)]
+      {0: Fraction(1, 5), 1: Fraction(9, 10), 2: Fraction(1, 2), 3: Fraction(1, 7)},
+      # the first assignment with the values of vertices 1 and 3 exchanged: both focal vertices (0, 2) keep their value,
+      # so a memo keyed by the multiset of the other vertices' u collides (1 <-> 3 is no automorphism of 'tail')
+      {0: Fraction(1, 2), 1: Fraction(7, 8), 2: Fraction(2, 5), 3: Fraction(1, 3)}]
+ALPHABET = [(m, f, pi, ui) for m in MOTIFS for f in (0, 2) for pi in range(2) for ui in range(3)]
+SYMBOLIC_OK = [True]
 
 
 def cache_state(ae):
@@ -104,7 +145,16 @@ def cache_state(ae):
 
 def apply_letter(ae, letter):
     m, f, pi, ui = letter
-    return evaluate(ae, m, VERTS, MOTIFS[m], f, Poly.const(PHIS[pi]), {v: Poly.const(x) for v, x in US[ui].items()})
+    if SYMBOLIC_OK[0]:
+        return evaluate(ae, m, VERTS, MOTIFS[m], f, Poly.const(PHIS[pi]),
+                        {v: Poly.const(x) for v, x in US[ui].items()})
+    return evaluate(ae, m, VERTS, MOTIFS[m], f, float(PHIS[pi]), {v: float(x) for v, x in US[ui].items()})
+
+
+def same_value(a, b):
+    if isinstance(a, Poly) or isinstance(b, Poly):
+        return Poly.lift(a) == Poly.lift(b)
+    return abs(float(a) - float(b)) <= 1e-12
 
 
 def run_history(res):
@@ -118,6 +168,11 @@ def run_history(res):
         env = {"p": PHIS[pi]}
         env.update({f"u{v}": x for v, x in US[ui].items()})
         truth[letter] = pol.subs(env)
+    try:
+        apply_letter(AutomatedEquation(), ALPHABET[0])
+    except Exception:
+        SYMBOLIC_OK[0] = False  # the code does not run on exact constants: use floats (tolerance 1e-12)
+        res.count("history_decided_numerically_because_exact_arguments_failed")
     fresh = {}
     for letter in ALPHABET:
         try:
@@ -144,7 +199,8 @@ def run_history(res):
             except Exception as e:
                 res.violation("C15:history-raises", f"history {h2}: {e!r}", {"kind": "history"}, history=h2)
                 return
-            if val != fresh[letter] or Poly.lift(val) != Poly.const(truth[letter]):
+            if not same_value(val, fresh[letter]) or not same_value(val, truth[letter] if SYMBOLIC_OK[0]
+                                                                     else float(truth[letter])):
                 res.violation("C15:history-dependent",
                               f"after history {hist} the evaluation {letter} (motif, focal, phi#, u#) returns {val}; "
                               f"a fresh evaluator returns {fresh[letter]}, the exact expectation is {truth[letter]}",
@@ -153,6 +209,11 @@ def run_history(res):
             k = cache_state(nxt)
             if k not in seen:
                 seen[k] = h2
+                if len(seen) > 400:
+                    # structural caches of 6 (motif, focal) pairs have 64 states; far more means the caches hold
+                    # something else - stop widening (every state found so far was still checked)
+                    res.count("history_state_cap_hit")
+                    continue
                 if len(h2) < maxdepth:
                     frontier.append((nxt, h2))
                 else:
@@ -175,10 +236,57 @@ def run_history(res):
                         "deepest_shortest_history": max(seen.values(), key=len)})
 
 
+def run_shared(res, inst, tier):
+    """One evaluator shared by ALL motifs of the box (distinct names), swept in a fixed order: every answer must
+    still be the exact expectation (catches cache keys that collide across different motif structures)."""
+    from gcmpy.message_passing.equations.automated_equation import AutomatedEquation
+    ae = AutomatedEquation()
+    items = []
+    for gi, (n, edges) in enumerate(graphs(tier, 0)):
+        if len(edges) > 9:
+            continue
+        for root in range(n):
+            items.append((gi, n, edges, root))
+    if inst["order"] == "reverse":
+        items.reverse()
+    numeric = False
+    for gi, n, edges, root in items:
+        verts = list(range(n))
+        p = Poly.var("p")
+        u = {v: Poly.var(f"u{v}") for v in verts}
+        want = perc.expectation_poly(verts, edges, root, p, u)
+        res.executions += 1
+        res.transitions += 1
+        bad = None
+        try:
+            if not numeric:
+                got = evaluate(ae, f"g{gi}", verts, edges, root, p, u)
+                if not isinstance(got, Poly) or got != want:
+                    bad = f"differs from the exact expectation: {diff_summary(got, want) if isinstance(got, Poly) else got}"
+        except Exception:
+            numeric = True
+            ae = AutomatedEquation()
+        if numeric:
+            try:
+                bad = numeric_check(lambda: ae, f"g{gi}", verts, edges, root, want)
+            except Exception as e:
+                bad = f"raised {e!r}"
+        if bad:
+            res.violation("C15:shared-evaluator", f"one evaluator shared by all motifs of the box ({inst['order']} "
+                          f"order): motif g{gi} edges={edges} focal={root}: {bad}", {"kind": "shared",
+                                                                                       "order": inst["order"]})
+            return
+    res.states += 1
+    res.flags.add("shared-sweep")
+    res.samples.append({"shared_evaluator_sweep": inst["order"], "evaluations": len(items)})
+
+
 def run_instance(inst, tier):
     res = Result()
     if inst["kind"] == "identity":
         run_identity(res, inst)
+    elif inst["kind"] == "shared":
+        run_shared(res, inst, tier)
     else:
         run_history(res)
     return res
@@ -192,6 +300,11 @@ def finalize(agg, tier):
 
 def replay(v):
     r = Result()
+    if v["instance"].get("kind") == "shared":
+        run_shared(r, v["instance"], v.get("tier", "quick"))
+        for x in r.violations:
+            print(x["key"], x["message"][:800])
+        return 1 if r.violations else 0
     if v["instance"].get("kind") == "history":
         from gcmpy.message_passing.equations.automated_equation import AutomatedEquation
         ae = AutomatedEquation()
